@@ -13,6 +13,7 @@ python3 tools/gen_handler_guards.py > /dev/null
 python3 tools/gen_param_guards.py > /dev/null
 python3 tools/gen_render.py > /dev/null
 python3 tools/gen_geo.py > /dev/null
+python3 tools/gen_osrm.py > /dev/null
 python3 tools/gen_scenario.py > /dev/null
 python3 tools/gen_coll_loaders.py > /dev/null
 cd coq
